@@ -70,7 +70,7 @@ def build_c(job, wd):
 
 
 def shim_paths(job):
-    return [p if os.path.isabs(p) else os.path.join(RT, p) for p in (['inputs.c'] + job.shims)]
+    return [p if os.path.isabs(p) else os.path.join(RT, p) for p in (['inputs.c', 'mem.c'] + job.shims)]
 
 
 def cbmc_cmd(job, cfile, extra=()):
@@ -107,7 +107,7 @@ def parse_json_ui(text):
             if t.startswith('SAT checker: instance is') or t.startswith('SMT2 solver') : stats['queries'] = stats.get('queries', 0) + 1
             m = re.match(r'size of program expression: (\d+) steps', t)
             if m: stats['steps'] = int(m.group(1))
-        if 'cProverStatus' in el: stats['status'] = el['cProverStatus']
+        if 'cProverStatus' in el: stats['cprover_status'] = el['cProverStatus']
     return res, stats, '\n'.join(msgs[-15:])
 
 
@@ -119,12 +119,13 @@ def classify(results):
         if d.startswith('WITNESS'):
             (wit_ok if st == 'FAILURE' else wit_bad).append(d)
         elif '.unwind.' in p or 'unwinding assertion' in d:
-            if st != 'SUCCESS': unw_fail.append(p)
+            if st == 'FAILURE': unw_fail.append(p)
         elif '.assertion.' in p:
-            (user_ok if st == 'SUCCESS' else user_fail).append((p, d))
+            if st == 'SUCCESS': user_ok.append((p, d))
+            elif st == 'FAILURE': user_fail.append((p, d))
         else:
             nmem += 1
-            if st != 'SUCCESS': mem_fail.append((p, d))
+            if st == 'FAILURE': mem_fail.append((p, d))
     return dict(user_ok=user_ok, user_fail=user_fail, wit_ok=wit_ok, wit_bad=wit_bad, unw_fail=unw_fail, mem_fail=mem_fail, nmem=nmem)
 
 
@@ -239,10 +240,11 @@ def run_job(job, wd, seed):
         R['n_properties'] = len(res); R['n_user_assertions'] = len(c['user_ok']) + len(c['user_fail'])
         R['n_memory_checks'] = c['nmem']; R['witnesses'] = c['wit_ok']
         R['assertions'] = sorted(set(d for _, d in c['user_ok']))[:40]
-        if c['unw_fail']:
-            R['detail'] = 'unwinding assertion failed (bound too small): ' + ' '.join(c['unw_fail'][:5]); return R
-        if c['wit_bad'] or not c['wit_ok']:
-            R['detail'] = 'vacuity witness not reachable: ' + (', '.join(c['wit_bad']) or 'harness has no witness'); return R
+        bad_status = sorted(set(r.get('status') for r in res) - {'SUCCESS', 'FAILURE'})
+        real_fail = c['user_fail'] or c['mem_fail']
+        # UNKNOWN next to a FAILURE is CBMC declining to decide properties behind a failed one: report the failure.
+        if bad_status and not (real_fail and bad_status == ['UNKNOWN']):
+            R['detail'] = 'solver did not decide every property (statuses %s): out of memory or internal error; %s' % (bad_status, msgs[-600:]); return R
         fails = c['user_fail'] + c['mem_fail']
         if fails:
             R['status'] = 'violation'; R['failed'] = [dict(property=p, description=d) for p, d in fails[:20]]
@@ -250,7 +252,12 @@ def run_job(job, wd, seed):
             R['counterexample_inputs'] = inputs; R['trace_file'] = tr
             if job.tv:
                 R['native_replay'] = native_replay(job, cfile, wd, inputs)
-        else:
+            return R
+        if c['unw_fail']:
+            R['detail'] = 'unwinding assertion failed (bound too small): ' + ' '.join(c['unw_fail'][:5]); return R
+        if c['wit_bad'] or not c['wit_ok']:
+            R['detail'] = 'vacuity witness not reachable: ' + (', '.join(c['wit_bad']) or 'harness has no witness'); return R
+        if True:
             R['status'] = 'held'
         return R
     except Exception as e:
